@@ -473,10 +473,32 @@ class Run:
             gens[max(gens, default=0) + 1] = slot['states']
             where = (f'op{idx} commit the training of {slot["project"]}/{slot["ver"]} begun earlier '
                      f'({"another" if slot["child"] is self.other else "same"} process, {len(self.slots)} other open)')
-            res = slot['child'].call('train_commit', {'slot': key})
-            self.trace.append({**op, 'crash': None})
+            crash = None
+            spec = op.get('crash')
+            if spec:
+                # the commit of k states is mkdir + k renames + create/write/replace of the tag (+ return)
+                at = spec['at'] if 'at' in spec else 1 + int(spec['frac'] * (len(slot['states']) + 5))
+                crash = {'at': at, 'cut': None}
+            res = slot['child'].call('train_commit', {'slot': key}, crash)
+            self.trace.append({**op, 'crash': {**crash, 'retry': False} if crash else None})
             self.stats['op:commit'] += 1
             self.stats['overlapping-trainers'] += 1
+            if res.status == 'crashed':
+                if slot['child'] is self.child:
+                    self.child = None
+                    self.slots = {k: v for k, v in self.slots.items() if v['child'] is not slot['child']}
+                else:
+                    self.other = None
+                    self.slots = {k: v for k, v in self.slots.items() if v['child'] is not slot['child']}
+                self.stats['crash_points'] += 1
+                what = res.oplog[-1]
+                self.stats[f'fault:death-before-{what[1]}'] += 1
+                self.crash_site = f'commit::{what[1]} {_norm(what[2])}'
+                branch = self.settle(where + f' crash@{crash["at"]}', before, after)
+                self.stats[f'settled:{branch}'] += 1
+                self.check_append_only(where)
+                self.protect()
+                return
             if not res.ok:
                 raise base.Violation('verdict-mismatch', f'{where}: failed with {res.value}')
             if res.value != max(gens):
